@@ -459,6 +459,10 @@ def wd_live(binp, plans, seed):
     for p, o in zip(plans, out['results']):
         want_exit = p['exit_tick'] >= 0
         sig = None
+        if o.get('note', '').startswith('panic'):
+            rp = vlib.save_replay(PID, 'wd_live_panic_%d' % p['id'], {'kind': 'real-time watchdog scenario (child process)', 'plan': p, 'observed': o})
+            viols.append({'property': PID, 'signature': 'panic|wd-live', 'replay': rp, 'msg': o['note']})
+            continue
         if want_exit and not o['exited']:
             sig = 'wd-live|no-exit-although-database-gone'
         elif not want_exit and o['exited']:
@@ -525,11 +529,23 @@ def run(tier):
             bodies = out.get('insert_body_by_mode', {})
             if len(bodies) != 2:
                 raise vlib.Infra('INSERT statements per mode not observed: %r' % bodies)
+        def established():
+            return [x for x in viols if x['signature'].split('|')[0] in ('replay', 'cases', 'trace', 'wd-live', 'panic')]
         # free-running traces
-        tv, tstats, tsample = traces(binp, rq, tier, seed)
-        viols += tv
-        wv, wd_results = f_wd.result()
-        viols += wv
+        try:
+            tv, tstats, tsample = traces(binp, rq, tier, seed)
+            viols += tv
+        except vlib.Infra as e:
+            if not established():
+                raise
+            tstats, tsample = {'aborted': str(e)[:300], 'scenarios': 0, 'tlc_states': 0}, []
+        try:
+            wv, wd_results = f_wd.result()
+            viols += wv
+        except vlib.Infra as e:
+            if not established():
+                raise
+            wd_results = [{'aborted': str(e)[:300]}] * len(plans)
         mc = f_mc.result()
     cov = {
         'states': sum(m['states'] for m in mc) + cex_run['states'] + tstats['tlc_states'],
